@@ -78,9 +78,14 @@ def same(fmt, a, b):
 def run_once(work, idx, rnd, docs_dir, ndocs, stateful_idx, T):
     n_items = rnd.randint(20, 120)
     items = []
-    heavy = rnd.random() < 0.25      # every item draws random anchors at the same time as the other threads
+    assets = rnd.random() < 0.2      # every item stores assets through the package writers at the same time as the other threads
+    heavy = (not assets) and rnd.random() < 0.3      # every item draws random anchors at the same time as the other threads
     for _ in range(n_items):
         d = rnd.choice(stateful_idx) if rnd.random() < 0.5 else rnd.randrange(ndocs)
+        if assets:
+            # every item packs a document with local images (and the e-mail / note documents now and then) into an archive
+            items.append((rnd.randrange(T), 6 if rnd.random() < 0.8 else d, rnd.choice(['epub', 'odt', 'bundlezip', 'htmlassets', 'epub']), rnd.choice(EXTS[:4]), rnd.randrange(7)))
+            continue
         if heavy:
             items.append((rnd.randrange(T), ndocs - 1, 'html', EXTS[0] | EXT['RANDOM_FOOT'] | (EXT['RANDOM_LABELS'] if rnd.random() < 0.5 else 0), 0))
             continue
